@@ -505,3 +505,10 @@ SELFTEST = [
 LEVEL_TEXT += ' Also (R4): the hyper connection builder is configured once before the transport switch and HTTP/1 half-close is never enabled, so HTTP and HTTPS detect a disconnect identically.'
 LEVEL_TEXT += " Also (R5): the disconnect record (log line, 499 probe) is written only for a future dropped mid-handler: the scope guard is defused on every path from the completed handler await to the response."
 LEVEL_TEXT += " Also (R6): the task mode read by the dispatch is the configured one: it is copied from the constructor's config, which every internal caller passes through unmodified."
+
+
+SELFTEST += [
+    {"name": "config-serialising-conversion-destructures", "kind": "benign", "why": "behaviour-preserving: From<ConfigDropshot> for DeserializedConfigDropshot destructures its argument first",
+     "edits": [("dropshot/src/config.rs", "        DeserializedConfigDropshot {\n            bind_address: v.bind_address,\n            default_request_body_max_bytes: v.default_request_body_max_bytes,\n            request_body_max_bytes: None,\n            default_handler_task_mode: v.default_handler_task_mode,\n            log_headers: v.log_headers,\n        }",
+                "        let ConfigDropshot { bind_address, default_request_body_max_bytes, default_handler_task_mode, log_headers } = v;\n        DeserializedConfigDropshot {\n            bind_address,\n            default_request_body_max_bytes,\n            request_body_max_bytes: None,\n            default_handler_task_mode,\n            log_headers,\n        }")]},
+]
